@@ -418,6 +418,9 @@ pub struct SchedSt {
     /// whether an "idle" choice (release nothing; let virtual time advance to the next timer) is offered
     pub offer_idle: bool,
     pub idle_taken: u32,
+    /// an idle choice is in effect since this virtual instant: the hook may be re-invoked before the
+    /// runtime actually parks and advances the paused clock; such re-invocations are not new choices
+    idle_since: Option<(tokio::time::Instant, usize)>,
     /// fault filter: may this op be failed?
     pub faultable: fn(&OpDesc) -> bool,
 }
@@ -449,6 +452,7 @@ impl Sched {
                 drained_tx: None,
                 offer_idle: false,
                 idle_taken: 0,
+                idle_since: None,
                 faultable: never_faultable,
             }),
             gate_vrf,
@@ -517,6 +521,15 @@ impl Sched {
                 if st.parked.is_empty() {
                     return; // tokio parks; paused clock auto-advances to the next timer (or the watchdog)
                 }
+                if let Some((t, n)) = st.idle_since {
+                    // the paused clock advances timer-wheel slot by slot: keep idling until something
+                    // actually happened (a new gate parked, or a parked task went away)
+                    let _ = t;
+                    if st.parked.len() == n {
+                        return; // still idling: let the runtime park and advance virtual time
+                    }
+                    st.idle_since = None;
+                }
                 // canonical order: the task that ran last first (if enabled), then ascending ordinal
                 let last = st.last_task;
                 st.parked.sort_by_key(|p| (Some(p.task) != last, p.task));
@@ -553,6 +566,7 @@ impl Sched {
                 match gi {
                     None => {
                         st.idle_taken += 1;
+                        st.idle_since = Some((tokio::time::Instant::now(), st.parked.len()));
                         // release nothing: tokio parks and virtual time advances to the next timer
                     }
                     Some(i) => {
